@@ -347,32 +347,66 @@ def d4(chk, prog):
         raise AnalysisError("SEGMENT_METHODS vanished")
     chk.floor("segmentation methods", len(methods), 7)
     fi = prog.fn("cnvlib.segmentation._do_segmentation")
-    it = Interp(prog)
-    # the if/elif chain assigning segarr
-    chain = None
-    for n in own_nodes(fi.node):
-        if isinstance(n, ast.If) and "method" in norm(n.test) and any(isinstance(s, ast.Assign) and norm(s.targets[0]) == "segarr" for s in n.body):
-            if chain is None or n.lineno < chain.lineno:
-                chain = n
-    if chain is None:
-        raise AnalysisError("_do_segmentation: method dispatch chain vanished")
-    for m in methods:
-        node, hit = chain, None
-        while True:
-            if truth(it.ev(node.test, {"method": m, "__mod__": fi.mod})):
-                hit = node.body
-                break
-            if len(node.orelse) == 1 and isinstance(node.orelse[0], ast.If):
-                node = node.orelse[0]
-            else:
-                hit = node.orelse
-                break
-        raises = any(isinstance(s, ast.Raise) for s in hit) or not hit
-        callee = next((norm(s.value.func) for s in hit if isinstance(s, ast.Assign) and isinstance(s.value, ast.Call)), None)
-        want = {"haar": "haar.segment_haar", "none": "none.segment_none"}.get(m, "hmm.segment_hmm" if m.startswith("hmm") else None)
-        ok = not raises and (want is None or callee == want)
-        chk.decide(ok, "method-dispatch", f"method {m!r} -> {callee or 'R script branch'}", f"{fi.qn}::dispatch {m}", fi.loc(chain),
-                   f"method {m!r} " + ("falls through to the error branch" if raises else f"is routed to {callee}, expected {want}"))
+    # every method, interpreted: which segmenter receives the bins (the R methods: which script is run), with the method's own options; an unknown name raises
+    tbm = Table(chk, "method-dispatch", f"_do_segmentation(<method>) for the {len(methods)} declared methods and an unknown one: the segmenter that is run", fi.loc(), fi.qn + "::dispatch")
+    cbs_script = ast.literal_eval(prog.module("cnvlib.segmentation.cbs").assigns["CBS_RSCRIPT"]) if "CBS_RSCRIPT" in prog.module("cnvlib.segmentation.cbs").assigns else None
+    flasso_script = ast.literal_eval(prog.module("cnvlib.segmentation.flasso").assigns["FLASSO_RSCRIPT"]) if "FLASSO_RSCRIPT" in prog.module("cnvlib.segmentation.flasso").assigns else None
+    for m in list(methods) + ["bogus"]:
+        W.reset()
+        rows = [dict(chromosome="chr1", start=i * 100, end=i * 100 + 100, gene="g", log2=Term.sym(f"v{i}", -10, 10), depth=Term.sym(f"d{i}", 1, INF), weight=(Fr(0) if i == 1 else Fr(9, 10))) for i in range(3)]
+        arr = make_ga("CopyNumArray", rows, {"sample_id": "S"}, index="any", exact=True, labels=[0, 1, 2])          # the middle bin has no weight: it is filtered out, the survivors keep labels 0 and 2
+        model = Model()
+        ran = []
+        seg1 = make_ga("CopyNumArray", [dict(chromosome="chr1", start=0, end=300, gene="-", log2=0, probes=3)], {}, exact=True)
+        model.prims["cnvlib.segmentation.haar.segment_haar"] = lambda it, cn, *a, ran=ran, **k: ran.append(("haar", cn.data.n, a)) or seg1
+        model.prims["cnvlib.segmentation.none.segment_none"] = lambda it, cn, *a, ran=ran, **k: ran.append(("none", cn.data.n, a)) or seg1
+        model.prims["cnvlib.segmentation.hmm.segment_hmm"] = lambda it, cn, method, *a, ran=ran, **k: ran.append(("hmm", cn.data.n, method)) or seg1
+
+        def call_quiet(it, *cmd, ran=ran, **k):
+            ran.append(("Rscript", cmd[0], cmd[-1]))
+            return b"SEG OUTPUT"
+        model.prims["cnvlib.core.call_quiet"] = call_quiet
+
+        def temp_write_text(it, text, *a, ran=ran, **k):
+            # the script text is the template with its placeholders filled: its literal pieces tell which template it is
+            pieces = [p_ for p_ in text.parts if isinstance(p_, str)] if isinstance(text, FStr) else [str(text)]
+            lit = max(pieces, key=len) if pieces else ""
+            in_cbs, in_fl = bool(cbs_script) and lit in cbs_script, bool(flasso_script) and lit in flasso_script
+            ran.append(("script", "cbs" if in_cbs and not in_fl else "flasso" if in_fl and not in_cbs else "?"))
+            return "script.R"
+        model.prims["cnvlib.core.temp_write_text"] = temp_write_text
+        model.ext["tempfile.NamedTemporaryFile"] = lambda it, *a, **k: Row({"name": "T", "flush": lambda: None, "__enter__": None})
+        # what comes back from the R scripts is a fresh table numbered 0..n-1: one row per surviving bin for the fused lasso, one per segment for CBS
+        fitted = make_ga("CopyNumArray", [dict(chromosome="chr1", start=i * 100, end=i * 100 + 100, gene="-", log2=Fr(1, 4), probes=1) for i in (0, 2)], {}, exact=True)
+        model.prims["skgenome.tabio.read"] = lambda it, *a, ran=ran, m=m, **k: ran.append(("read", a[1] if len(a) > 1 else k.get("fmt"))) or (fitted if m == "flasso" else seg1)
+        model.prims["cnvlib.segfilters.squash_by_groups"] = lambda it, sa, levels, by_arm=False, ran=ran, **k: ran.append(("squash", by_arm, [repr(x) for x in sa.data.cols["weight"].v] if "weight" in sa.data.cols else None)) or sa
+        model.prims["cnvlib.segmentation.transfer_fields"] = lambda it, segarr, cnarr, *a, **k: segarr
+        model.ext["io.StringIO"] = lambda it, x="", *a, **k: ("STRINGIO", x)
+        model.method_hooks.append(lambda it, obj, name, args, kw: None if isinstance(obj, DF) and name == "to_csv" else NotImplemented)
+        model.method_hooks.append(lambda it, obj, name, args, kw: "SEG OUTPUT" if isinstance(obj, bytes) and name == "decode" else NotImplemented)
+        it = Interp(prog, model)
+        try:
+            out = it.run(fi.qn, [arr, m, None, 0.01, None, False, 0, 0])
+            raised = None
+        except Raised as e:
+            out, raised = None, str(e)
+        except Undecided as e:
+            tbm.undecided.append(f"method {m}: {e}")
+            continue
+        kinds = [r[0] for r in ran]
+        if m == "bogus":
+            ok = raised is not None and "ValueError" in raised and not ran
+        elif m == "haar":
+            ok = raised is None and ran == [("haar", 2, (0.01,))]
+        elif m == "none":
+            ok = raised is None and kinds == ["none"] and ran[0][1] == 2
+        elif m.startswith("hmm"):
+            ok = raised is None and ran == [("hmm", 2, m)]
+        else:
+            ok = raised is None and ("script", m) in ran and any(r[0] == "Rscript" and r[1] == "Rscript" and r[2] == "script.R" for r in ran) and ("read", "seg") in ran \
+                and (any(r[0] == "squash" and r[1] is True and r[2] == [repr(Fr(9, 10))] * 2 for r in ran)) == (m == "flasso") and not any(k_ in ("haar", "none", "hmm") for k_ in kinds)          # (the fitted rows carry their own bins' weights)
+        tbm.cell(ok, dict(method=m, ran=[repr(r)[:60] for r in ran], raised=raised))
+    tbm.done("a declared segmentation method is not routed to its own segmenter with the surviving bins (the fused-lasso rows paired with their own bins' weights), or an unknown method name is accepted")
     # which methods run on the whole array / per arm, and the unknown-method guard: decided by the interpreted driver table in D5
     fd = prog.fn("cnvlib.segmentation.do_segmentation")
     cmds = prog.module("cnvlib.commands")
@@ -556,6 +590,10 @@ _STRETCH = '''    # (Whole-genome methods: the edge chromosome's bins may all ha
         segments.data.iloc[-1, segments.data.columns.get_loc("end")] = bins_end
 '''
 MUTANTS = [
+    dict(name="regress: flasso weights assigned as a labelled Series", file="cnvlib/segmentation/__init__.py", old='                segarr["weight"] = filtered_cn["weight"].values', new='                segarr["weight"] = filtered_cn["weight"]'),
+    dict(name="hmm methods routed to haar", file="cnvlib/segmentation/__init__.py", old='    elif method.startswith("hmm"):\n        segarr = hmm.segment_hmm(filtered_cn, method, diploid_parx_genome, threshold, variants)', new='    elif method.startswith("hmm"):\n        segarr = haar.segment_haar(filtered_cn, threshold)'),
+    dict(name="twin: method dispatch through a table of segmenters", expect="silent", file="cnvlib/segmentation/__init__.py", old='    if method == "haar":\n        segarr = haar.segment_haar(filtered_cn, threshold)\n\n    elif method == "none":\n        segarr = none.segment_none(filtered_cn)\n\n    elif method.startswith("hmm"):',
+         new='    simple = {"haar": lambda: haar.segment_haar(filtered_cn, threshold), "none": lambda: none.segment_none(filtered_cn)}\n    if method in simple:\n        segarr = simple[method]()\n\n    elif method.startswith("hmm"):'),
     dict(name="cli: segment --drop-outliers fed from --drop-low-coverage", file="cnvlib/commands.py", old="        skip_outliers=args.drop_outliers,", new="        skip_outliers=args.drop_low_coverage,"),
     dict(name="cli: segment -p without a number means 1", file="cnvlib/commands.py", old='P_segment.add_argument(\n    "-p",\n    "--processes",\n    nargs="?",\n    type=int,\n    const=0,', new='P_segment.add_argument(\n    "-p",\n    "--processes",\n    nargs="?",\n    type=int,\n    const=1,'),
     dict(name="regress: last segment stretched whatever its chromosome", file=_S, old="    if segments.chromosome.iat[-1] == cnarr.chromosome.iat[-1]:\n", new="    if True:\n"),
